@@ -291,7 +291,7 @@ class Interp:
         m = re.match(r"^(-?\d+)_(\w+)$", t)
         if m:
             return z3.BitVecVal(int(m.group(1)), INTW[m.group(2)])
-        m = re.match(r"^(?:core::num::<impl )?(usize|u64|u32|u16|u8|u128|isize|i64|i32|i16|i8|i128)>?::(MIN|MAX|BITS)$", t)
+        m = re.match(r"^(?:[\w:]*core::num::<impl )?(usize|u64|u32|u16|u8|u128|isize|i64|i32|i16|i8|i128)>?::(MIN|MAX|BITS)$", t)
         if m:
             w = INTW[m.group(1)]; sg = m.group(1) in SIGNED
             if m.group(2) == "BITS": return z3.BitVecVal(w, 32)
@@ -531,6 +531,17 @@ class Interp:
         for pat, fnm in self.models:
             if pat.search(callee):
                 return fnm(self, callee, args)
+        m = re.match(r"^<([A-Z]) as (.+)>::(\w+)$", callee)
+        if m and args:
+            # call on a generic type parameter: dispatch on the run-time value's type
+            v = args[0]
+            while hasattr(v, "get"):
+                v = v.get()
+            if isinstance(v, Agg) and v.name:
+                callee = f"<{v.name} as {m.group(2)}>::{m.group(3)}"
+                for pat, fnm in self.models:
+                    if pat.search(callee):
+                        return fnm(self, callee, args)
         target = self.prog.resolve(callee)
         if target is None:
             raise Unsupported("no model and no MIR body for call: " + callee[:160])
@@ -542,7 +553,10 @@ class Interp:
         name = self.prog.closures.get(clo.name)
         if name is None:
             raise Unsupported("closure body not found: " + clo.name)
-        return self.call(name, [clo] + list(extra))
+        fn = self.prog.func(name)
+        first = fn.params[0][1] if fn.params else ""
+        recv = ValRef(clo) if first.startswith("&") else clo          # Fn/FnMut bodies take the closure by reference
+        return self.call(name, [recv] + list(extra))
 
 
 def explore(interp, entry, make_args, max_paths=400):
